@@ -115,35 +115,93 @@ Proof.
     rewrite Hs2. field. split; [assumption|destruct Hsg; subst; lra].
 Qed.
 
-(** a ray leaving the centre of curvature of a sphere (k = 0) meets it after |Rc| *)
+(** a ray leaving the centre of curvature of a sphere (k = 0) towards its vertex side (N Rc < 0) meets it after |Rc|
+    (the other root is behind the ray; since the sheet filter of the kernel, a ray heading away from the vertex
+    finds no intersection at all) *)
+Ltac xdec :=
+  repeat (cbn [xadd xsub xmul xdiv xneg xabs xsqrt xltb xleb xeqb];
+          unfold Rltb, Rleb, Reqb;
+          match goal with
+          | |- context [Rlt_dec ?a ?b] => destruct (Rlt_dec a b); try (exfalso; nra)
+          | |- context [Rle_dec ?a ?b] => destruct (Rle_dec a b); try (exfalso; nra)
+          | |- context [Req_EM_T ?a ?b] => destruct (Req_EM_T a b); try (exfalso; nra)
+          end).
+
+(** the selection among two known roots: the first is behind the ray (or off the sheet), the second is in front,
+    on the vertex sheet *)
+Lemma select_second k N z Rc (t1 t2 : R) :
+  N <> 0 -> t1 < 0 -> 0 <= t2 -> 0 <= (Rc - (1 + k) * (z + t2 * N)) * Rc ->
+  (let t1' := sheet k N z Rc (behind (Fin t1)) in
+   let t2' := sheet k N z Rc (behind (Fin t2)) in
+   if xleb (xabs (zat N z t1')) (xabs (zat N z t2')) then t1' else t2') = Fin t2.
+Proof.
+  intros HN H1 H2 Hs. cbv zeta.
+  assert (B1 : behind (Fin t1) = PInf) by (unfold behind; xdec; reflexivity).
+  assert (B2 : behind (Fin t2) = Fin t2) by (unfold behind; xdec; reflexivity).
+  rewrite B1, B2.
+  assert (S1 : sheet k N z Rc PInf = PInf) by (unfold sheet, zat; xdec; reflexivity).
+  assert (S2 : sheet k N z Rc (Fin t2) = Fin t2).
+  { unfold sheet, zat. cbn [xadd xsub xmul xneg xltb]. unfold Rltb.
+    destruct (Rlt_dec ((Rc + - ((1 + k) * (z + t2 * N))) * Rc) 0) as [E|_]; [exfalso; nra|reflexivity]. }
+  rewrite S1, S2. unfold zat. xdec; reflexivity.
+Qed.
+
 Lemma std_distance_from_centre Rc L M N :
-  Rc <> 0 -> L*L + M*M + N*N = 1 -> N <> 0 ->
+  Rc <> 0 -> L*L + M*M + N*N = 1 -> N * Rc < 0 ->
   k_std_distance XOps (Fin 0) (Fin N) (Fin L) (Fin M) (Fin Rc) (Fin 0) (Fin 0) (Fin Rc) = Fin (Rabs Rc).
 Proof.
-  intros HR Hd HN. rewrite res_unfold. cbv zeta.
+  intros HR Hd HN. rewrite res_unfold.
+  assert (HN0 : N <> 0) by (intro E; rewrite E in HN; lra).
+  assert (Ha : 0 < Rabs Rc) by (apply Rabs_pos_lt; assumption).
+  assert (Ha2 : Rabs Rc * Rabs Rc = Rc * Rc) by (rewrite <- Rabs_mult, (Rabs_right (Rc*Rc)); [reflexivity|nra]).
   replace (0*(N*N) + L*L + M*M + N*N) with 1 by lra.
   replace (2*0*N*Rc + 2*L*0 + 2*M*0 - 2*N*Rc + 2*N*Rc) with 0 by ring.
-  replace (0*0 - 4*1*(0*(Rc*Rc) - 2*Rc*Rc + 0*0 + 0*0 + Rc*Rc)) with ((2*Rabs Rc)*(2*Rabs Rc)).
-  2:{ transitivity (4*(Rabs Rc * Rabs Rc)); [ring|]. rewrite <- Rabs_mult, (Rabs_right (Rc*Rc)); [ring|nra]. }
-  assert (Ha : 0 < Rabs Rc) by (apply Rabs_pos_lt; assumption).
-  unfold Reqb, Rltb. destruct (Req_EM_T 1 0) as [E|_]; [lra|].
-  destruct (Rlt_dec 0 0) as [E|_]; [lra|].
-  cbn [xsqrt]. destruct (Rlt_dec (2*Rabs Rc*(2*Rabs Rc)) 0) as [E|_]; [nra|].
-  rewrite sqrt_square by lra.
-  cbn [xmul xadd]. 
-  replace (- / 2 * (0 + 1 * (2 * Rabs Rc))) with (- Rabs Rc) by field.
-  cbn [xeqb]. unfold Reqb. destruct (Req_EM_T (- Rabs Rc) 0) as [E|_]; [lra|].
-  cbn [xdiv]. destruct (Req_EM_T 1 0) as [E|_]; [lra|]. destruct (Req_EM_T (- Rabs Rc) 0) as [E|_]; [lra|].
-  replace (- Rabs Rc / 1) with (- Rabs Rc) by field.
-  replace ((0*(Rc*Rc) - 2*Rc*Rc + 0*0 + 0*0 + Rc*Rc) / - Rabs Rc) with (Rabs Rc).
-  2:{ transitivity ((Rabs Rc * Rabs Rc) / Rabs Rc); [field; lra|].
-      rewrite <- Rabs_mult, (Rabs_right (Rc*Rc)) by nra. field. lra. }
-  cbn [xltb]. unfold Rltb.
-  destruct (Rlt_dec (- Rabs Rc) 0) as [_|E]; [|lra].
-  destruct (Rlt_dec (Rabs Rc) 0) as [E|_]; [lra|].
-  cbn [xmul xadd]. destruct (Rlt_dec 0 N) as [HN1|HN1].
-  - cbn [xadd xabs xleb]. reflexivity.
-  - destruct (Rlt_dec N 0) as [HN2|HN2]; [|lra]. cbn [xadd xabs xleb]. reflexivity.
+  replace (0*0 - 4*1*(0*(Rc*Rc) - 2*Rc*Rc + 0*0 + 0*0 + Rc*Rc)) with ((2*Rabs Rc)*(2*Rabs Rc)) by (transitivity (4*(Rabs Rc*Rabs Rc)); [ring|rewrite Ha2; ring]).
+  replace (0*(Rc*Rc) - 2*Rc*Rc + 0*0 + 0*0 + Rc*Rc) with (- (Rabs Rc * Rabs Rc)) by (rewrite Ha2; ring).
+  assert (Q : xmul (Fin (- / 2)) (xadd (Fin 0) (xmul (if Rltb 0 0 then Fin (-1) else Fin 1)
+                 (xsqrt (Fin (2 * Rabs Rc * (2 * Rabs Rc)))))) = Fin (- Rabs Rc)).
+  { unfold Rltb. destruct (Rlt_dec 0 0) as [E|_]; [lra|]. cbn [xsqrt].
+    destruct (Rlt_dec (2*Rabs Rc*(2*Rabs Rc)) 0) as [E|_]; [nra|]. rewrite sqrt_square by lra.
+    cbn [xmul xadd]. f_equal. field. }
+  cbv zeta. rewrite Q.
+  assert (T1 : xdiv (Fin (- Rabs Rc)) (Fin 1) = Fin (- Rabs Rc)) by (xdec; f_equal; field).
+  assert (T2 : (if xeqb (Fin (- Rabs Rc)) (Fin 0) then Fin (- Rabs Rc)
+                else xdiv (Fin (- (Rabs Rc * Rabs Rc))) (Fin (- Rabs Rc))) = Fin (Rabs Rc)).
+  { xdec. f_equal. field. lra. }
+  rewrite T1, T2. unfold Reqb. destruct (Req_EM_T 1 0) as [E|_]; [lra|].
+  apply (select_second 0 N Rc Rc (- Rabs Rc) (Rabs Rc)); try lra.
+  destruct (Rcase_abs Rc) as [Hneg|Hpos].
+  - rewrite (Rabs_left Rc) by assumption. nra.
+  - rewrite (Rabs_right Rc) by lra. nra.
+Qed.
+
+(** regression of finding conic-wrong-sheet (fixed by dc4c87d): convex hyperboloid Rc = 11, k = -9/4, ray leaving
+    the far focus (0,0,-22) along (0, 3/5, 4/5).  Both sheets are ahead: the second sheet at t = 5 (z = -18, closer
+    to the vertex in z) and the vertex sheet at t = 55 (z = +22).  The kernel returns the vertex-sheet hit. *)
+Lemma std_distance_far_focus_regression :
+  k_std_distance XOps (Fin (-9/4)) (Fin (4/5)) (Fin 0) (Fin (3/5)) (Fin (-22)) (Fin 0) (Fin 0) (Fin 11) = Fin 55.
+Proof.
+  rewrite res_unfold.
+  replace (-9/4 * (4/5 * (4/5)) + 0*0 + 3/5 * (3/5) + 4/5 * (4/5)) with (-11/25) by field.
+  replace (2 * (-9/4) * (4/5) * -22 + 2*0*0 + 2 * (3/5) * 0 - 2 * (4/5) * 11 + 2 * (4/5) * -22) with (132/5) by field.
+  replace (-9/4 * (-22 * -22) - 2 * 11 * -22 + 0*0 + 0*0 + -22 * -22) with (-121) by field.
+  replace (132/5 * (132/5) - 4 * (-11/25) * -121) with (22*22) by field.
+  assert (Q : xmul (Fin (- / 2)) (xadd (Fin (132/5)) (xmul (if Rltb (132/5) 0 then Fin (-1) else Fin 1)
+                 (xsqrt (Fin (22*22))))) = Fin (-121/5)).
+  { unfold Rltb. destruct (Rlt_dec (132/5) 0) as [E|_]; [lra|]. cbn [xsqrt].
+    destruct (Rlt_dec (22*22) 0) as [E|_]; [lra|]. rewrite sqrt_square by lra.
+    cbn [xmul xadd]. f_equal. field. }
+  cbv zeta. rewrite Q.
+  assert (T1 : xdiv (Fin (-121/5)) (Fin (-11/25)) = Fin 55) by (xdec; f_equal; field).
+  assert (T2 : (if xeqb (Fin (-121/5)) (Fin 0) then Fin 55 else xdiv (Fin (-121)) (Fin (-121/5))) = Fin 5).
+  { xdec. f_equal. field. }
+  rewrite T1, T2. unfold Reqb. destruct (Req_EM_T (-11/25) 0) as [E|_]; [lra|].
+  assert (B1 : behind (Fin 55) = Fin 55) by (unfold behind; xdec; reflexivity).
+  assert (B2 : behind (Fin 5) = Fin 5) by (unfold behind; xdec; reflexivity).
+  rewrite B1, B2.
+  assert (S1 : sheet (-9/4) (4/5) (-22) 11 (Fin 55) = Fin 55) by (unfold sheet, zat; xdec; reflexivity).
+  assert (S2 : sheet (-9/4) (4/5) (-22) 11 (Fin 5) = PInf) by (unfold sheet, zat; xdec; reflexivity).
+  rewrite S1, S2. unfold zat. xdec; reflexivity.
 Qed.
 
 (** the image plane: a ray at height z (relative to the plane) with direction cosine N reaches it after -z/N *)
